@@ -2,7 +2,7 @@
    by [exact <lemma>] and followed by Print Assumptions. Model: Cache/Model.v (src/cache/mod.rs,
    commands/context.rs: process_file_with_cache, load_cache, save_cache), for EVERY operation
    history (no bound on length, paths, contents), every counter oracle [truth], every size
-   function [csize] and every configuration-hash function [chash] that is injective on
+   function [csize], every predicate [keyable] (which paths have a cache key: valid UTF-8) and every configuration-hash function [chash] that is injective on
    [languages] tables (the assumption on SHA-256 + serialisation; the run checks that different
    tables observed give different hashes, and C12_refuted_colliding_hash shows it is needed). The model is the code AFTER the repair of D13 (racy-clean rule: an entry is
    stored only when its mtime second is older than the clock reading taken before the file was
@@ -18,25 +18,25 @@ Open Scope N_scope.
    rename collision and without a forged cache file, prints exactly what the same invocation
    prints with --no-sloc-cache; same-size rewrites and rewrites in the second of a previous run
    included *)
-Theorem C12_transparent_modulo_known : forall truth csize chash, (forall a b, chash a = chash b -> a = b) -> forall h,
-  monotone_clock h = true -> has_racy_rename truth csize chash h = false -> has_forgery truth csize chash h = false ->
-  transparent truth csize chash h = true.
+Theorem C12_transparent_modulo_known : forall truth csize chash keyable, (forall a b, chash a = chash b -> a = b) -> forall h,
+  monotone_clock h = true -> has_racy_rename truth csize chash keyable h = false -> has_forgery truth csize chash keyable h = false ->
+  transparent truth csize chash keyable h = true.
 Proof. exact transparent_modulo_known. Qed.
 Print Assumptions C12_transparent_modulo_known.
 
 (* the D13 window is closed: under the same hypotheses no write can ever collide with the cached
    entry of its path (same mtime second, same size, other content) *)
-Theorem C12_no_racy_write : forall truth csize chash, (forall a b, chash a = chash b -> a = b) -> forall h,
-  monotone_clock h = true -> has_racy_rename truth csize chash h = false -> has_forgery truth csize chash h = false ->
-  has_racy_write truth csize chash h = false.
+Theorem C12_no_racy_write : forall truth csize chash keyable, (forall a b, chash a = chash b -> a = b) -> forall h,
+  monotone_clock h = true -> has_racy_rename truth csize chash keyable h = false -> has_forgery truth csize chash keyable h = false ->
+  has_racy_write truth csize chash keyable h = false.
 Proof. exact no_racy_write. Qed.
 Print Assumptions C12_no_racy_write.
 
 (* the reachable-state invariant behind both: an entry of a loadable cache whose (mtime, size)
    match the file now at its path carries that file's true statistics *)
-Theorem C12_cache_invariant : forall truth csize chash, (forall a b, chash a = chash b -> a = b) -> forall h,
-  monotone_clock h = true -> has_racy_rename truth csize chash h = false -> has_forgery truth csize chash h = false ->
-  let w := fst (exec truth csize chash world0 h) in
+Theorem C12_cache_invariant : forall truth csize chash keyable, (forall a b, chash a = chash b -> a = b) -> forall h,
+  monotone_clock h = true -> has_racy_rename truth csize chash keyable h = false -> has_forgery truth csize chash keyable h = false ->
+  let w := fst (exec truth csize chash keyable world0 h) in
   forall es p e f, load_cache (w_cache w) (chash (w_cfg w)) = Some es ->
     lookup p es = Some e -> lookup p (w_files w) = Some f ->
     metadata_matches e (f_mtime f) (csize (f_cid f)) = true ->
@@ -45,18 +45,18 @@ Proof. exact cache_invariant. Qed.
 Print Assumptions C12_cache_invariant.
 
 (* the step form of the invariant (any world satisfying it, any clock value not behind it) *)
-Theorem C12_run_preserves_invariant : forall truth csize chash, (forall a b, chash a = chash b -> a = b) -> forall w excl now last,
+Theorem C12_run_preserves_invariant : forall truth csize chash keyable, (forall a b, chash a = chash b -> a = b) -> forall w excl now last,
   Inv truth csize chash w last -> last <= now ->
-  fst (run_cached truth csize chash w excl now) = run_uncached truth csize w excl now /\
-  Inv truth csize chash (snd (run_cached truth csize chash w excl now)) now.
+  fst (run_cached truth csize chash keyable w excl now) = run_uncached truth csize keyable w excl now /\
+  Inv truth csize chash (snd (run_cached truth csize chash keyable w excl now)) now.
 Proof. exact run_cached_spec. Qed.
 Print Assumptions C12_run_preserves_invariant.
 
 (* a cache file that load_cache rejects (absent, unparsable, foreign version, other hash) is
    ignored: the invocation behaves exactly like --no-sloc-cache, in ANY world *)
-Theorem C12_corrupt_is_ignored : forall truth csize chash w excl now,
+Theorem C12_corrupt_is_ignored : forall truth csize chash keyable w excl now,
   load_cache (w_cache w) (chash (w_cfg w)) = None ->
-  fst (run_cached truth csize chash w excl now) = run_uncached truth csize w excl now.
+  fst (run_cached truth csize chash keyable w excl now) = run_uncached truth csize keyable w excl now.
 Proof. exact corrupt_is_ignored. Qed.
 Print Assumptions C12_corrupt_is_ignored.
 
@@ -77,17 +77,26 @@ Theorem C12_config_hash_sufficient : forall chash, (forall a b, chash a = chash 
 Proof. exact config_hash_sufficient. Qed.
 Print Assumptions C12_config_hash_sufficient.
 
+(* a path that has no cache key (not valid UTF-8; D40) is counted from scratch whatever the cache
+   file holds, and leaves the cache untouched: its result is independent of the cache state *)
+Theorem C12_unkeyed_path_independent : forall truth csize keyable cfg now es es' pf, keyable (fst pf) = false ->
+  fst (process truth csize keyable cfg now es pf) = fst (process truth csize keyable cfg now es' pf) /\
+  fst (process truth csize keyable cfg now es pf) = ref_one truth cfg pf /\
+  snd (process truth csize keyable cfg now es pf) = es.
+Proof. exact unkeyed_independent. Qed.
+Print Assumptions C12_unkeyed_path_independent.
+
 (* ---- refuted parts (witnesses by vm_compute) *)
 (* (the [languages] table never changes in the next two witnesses, so the hash function plays no
    role in them)
    two files written in the same second with the same size; after a run, one is renamed over the
    other: the cached run reports the statistics of the file that is gone *)
 Example C12_refuted_rename_same_meta :
-  exists truth csize chash h,
-    monotone_clock h = true /\ has_forgery truth csize chash h = false /\ has_racy_write truth csize chash h = false /\
-    has_racy_rename truth csize chash h = true /\ transparent truth csize chash h = false.
+  exists truth csize chash keyable h,
+    monotone_clock h = true /\ has_forgery truth csize chash keyable h = false /\ has_racy_write truth csize chash keyable h = false /\
+    has_racy_rename truth csize chash keyable h = true /\ transparent truth csize chash keyable h = false.
 Proof.
-  exists (fun _ c => if N.eqb c 1 then Some (mkS 2 2 0 0 0) else Some (mkS 2 1 1 0 0)), (fun _ => 18), (fun _ => 0),
+  exists (fun _ c => if N.eqb c 1 then Some (mkS 2 2 0 0 0) else Some (mkS 2 1 1 0 0)), (fun _ => 18), (fun _ => 0), (fun _ => true),
     [Write (1,1) 1 100; Write (2,1) 2 100; Run Check [] 102; Rename (1,1) (2,1); Run StatsFiles [] 104].
   vm_compute. repeat split; reflexivity.
 Qed.
@@ -95,11 +104,11 @@ Print Assumptions C12_refuted_rename_same_meta.
 
 (* a well-formed in-place edit of one entry's statistics is trusted (there is no checksum) *)
 Example C12_refuted_wellformed_edit :
-  exists truth csize chash h,
-    monotone_clock h = true /\ has_racy_rename truth csize chash h = false /\ has_forgery truth csize chash h = true /\
-    transparent truth csize chash h = false.
+  exists truth csize chash keyable h,
+    monotone_clock h = true /\ has_racy_rename truth csize chash keyable h = false /\ has_forgery truth csize chash keyable h = true /\
+    transparent truth csize chash keyable h = false.
 Proof.
-  exists (fun _ _ => Some (mkS 2 2 0 0 0)), (fun _ => 18), (fun _ => 0),
+  exists (fun _ _ => Some (mkS 2 2 0 0 0)), (fun _ => 18), (fun _ => 0), (fun _ => true),
     [Write (1,1) 1 100; Run Check [] 102; Corrupt (KForge (1,1) (mkS 9 7 1 1 0)); Run Check [] 103].
   vm_compute. repeat split; reflexivity.
 Qed.
@@ -112,8 +121,8 @@ Example C12_same_second_same_size_repaired :
   let truth := (fun (_ c : N) => if N.eqb c 1 then Some (mkS 2 2 0 0 0) else Some (mkS 2 1 1 0 0)) in
   let h := [Write (1,1) 1 100; Run Check [] 100; Write (1,1) 2 100; Run StatsSummary [] 100; Run StatsFiles [] 105] in
   let chash := (fun c : langs => fold_right (fun x a => 1 + fst x + 64 * (snd x + 1024 * a)) 0 c) in
-  transparent truth (fun _ => 18) chash h = true /\ has_racy_write truth (fun _ => 18) chash h = false /\
-  snd (exec truth (fun _ => 18) chash world0 h) =
+  transparent truth (fun _ => 18) chash (fun _ => true) h = true /\ has_racy_write truth (fun _ => 18) chash (fun _ => true) h = false /\
+  snd (exec truth (fun _ => 18) chash (fun _ => true) world0 h) =
     [([((1,1), mkS 2 2 0 0 0)], [((1,1), mkS 2 2 0 0 0)]);
      ([((1,1), mkS 2 1 1 0 0)], [((1,1), mkS 2 1 1 0 0)]);
      ([((1,1), mkS 2 1 1 0 0)], [((1,1), mkS 2 1 1 0 0)])].
@@ -128,9 +137,9 @@ Example C12_nonvacuous :
             SetLanguages [(1,100)]; Run StatsFiles [] 104; Corrupt (KVersion 2); Run Check [] 105;
             Rename (1,1) (2,1); Run Snapshot [] 106] in
   let chash := (fun c : langs => fold_right (fun x a => 1 + fst x + 64 * (snd x + 1024 * a)) 0 c) in
-  monotone_clock h = true /\ has_racy_rename truth (fun _ => 18) chash h = false /\ has_forgery truth (fun _ => 18) chash h = false /\
-  transparent truth (fun _ => 18) chash h = true /\
-  map fst (snd (exec truth (fun _ => 18) chash world0 h)) =
+  monotone_clock h = true /\ has_racy_rename truth (fun _ => 18) chash (fun _ => true) h = false /\ has_forgery truth (fun _ => 18) chash (fun _ => true) h = false /\
+  transparent truth (fun _ => 18) chash (fun _ => true) h = true /\
+  map fst (snd (exec truth (fun _ => 18) chash (fun _ => true) world0 h)) =
     [[((1,1), mkS 2 2 0 0 0)]; [((1,1), mkS 2 2 0 0 0)]; [((1,1), mkS 2 1 1 0 0)]; [((1,1), mkS 2 0 2 0 0)];
      [((1,1), mkS 2 0 2 0 0)]; [((2,1), mkS 2 0 2 0 0)]].
 Proof. vm_compute. repeat split; reflexivity. Qed.
@@ -140,11 +149,11 @@ Print Assumptions C12_nonvacuous.
    tables (here: no table from the empty one) a configuration change leaves the cache valid and
    the cached run reports the statistics counted under the old table *)
 Example C12_refuted_colliding_hash :
-  exists truth csize chash h,
-    monotone_clock h = true /\ has_racy_rename truth csize chash h = false /\ has_forgery truth csize chash h = false /\
-    has_racy_write truth csize chash h = false /\ transparent truth csize chash h = false.
+  exists truth csize chash keyable h,
+    monotone_clock h = true /\ has_racy_rename truth csize chash keyable h = false /\ has_forgery truth csize chash keyable h = false /\
+    has_racy_write truth csize chash keyable h = false /\ transparent truth csize chash keyable h = false.
 Proof.
-  exists (fun l _ => if N.eqb l 100 then Some (mkS 2 0 2 0 0) else Some (mkS 2 2 0 0 0)), (fun _ => 18), (fun _ => 7),
+  exists (fun l _ => if N.eqb l 100 then Some (mkS 2 0 2 0 0) else Some (mkS 2 2 0 0 0)), (fun _ => 18), (fun _ => 7), (fun _ => true),
     [Write (1,1) 1 100; Run Check [] 102; SetLanguages [(1,100)]; Run StatsFiles [] 103].
   vm_compute. repeat split; reflexivity.
 Qed.
@@ -156,8 +165,8 @@ Print Assumptions C12_refuted_colliding_hash.
 Example C12_foreign_version_ignored :
   let truth := (fun (_ _ : N) => Some (mkS 11 3 2 0 6)) in
   let h := [Write (1,1) 1 100; Run Check [] 102; Corrupt (KForeign 2 (1,1) (mkS 11 9 2 0 0)); Run Check [] 103; Run StatsFiles [] 104] in
-  has_forgery truth (fun _ => 18) (fun _ => 0) h = false /\ transparent truth (fun _ => 18) (fun _ => 0) h = true /\
-  map fst (snd (exec truth (fun _ => 18) (fun _ => 0) world0 h)) =
+  has_forgery truth (fun _ => 18) (fun _ => 0) (fun _ => true) h = false /\ transparent truth (fun _ => 18) (fun _ => 0) (fun _ => true) h = true /\
+  map fst (snd (exec truth (fun _ => 18) (fun _ => 0) (fun _ => true) world0 h)) =
     [[((1,1), mkS 11 3 2 0 6)]; [((1,1), mkS 11 3 2 0 6)]; [((1,1), mkS 11 3 2 0 6)]].
 Proof. vm_compute. repeat split; reflexivity. Qed.
 Print Assumptions C12_foreign_version_ignored.
@@ -167,7 +176,7 @@ Print Assumptions C12_foreign_version_ignored.
 Example C12_symlink_target_edit :
   let truth := (fun (_ c : N) => if N.eqb c 1 then Some (mkS 2 2 0 0 0) else Some (mkS 12 12 0 0 0)) in
   let h := [Write (1,1) 1 100; Copy (1,1) (7,1); Run Check [(1,1)] 102; Write (1,1) 2 103; Write (7,1) 2 103; Run Check [(1,1)] 104] in
-  has_racy_rename truth (fun _ => 18) (fun _ => 0) h = false /\ transparent truth (fun _ => 18) (fun _ => 0) h = true /\
-  map fst (snd (exec truth (fun _ => 18) (fun _ => 0) world0 h)) = [[((7,1), mkS 2 2 0 0 0)]; [((7,1), mkS 12 12 0 0 0)]].
+  has_racy_rename truth (fun _ => 18) (fun _ => 0) (fun _ => true) h = false /\ transparent truth (fun _ => 18) (fun _ => 0) (fun _ => true) h = true /\
+  map fst (snd (exec truth (fun _ => 18) (fun _ => 0) (fun _ => true) world0 h)) = [[((7,1), mkS 2 2 0 0 0)]; [((7,1), mkS 12 12 0 0 0)]].
 Proof. vm_compute. repeat split; reflexivity. Qed.
 Print Assumptions C12_symlink_target_edit.
